@@ -45,13 +45,14 @@ class Loop:
     """Contract of one loop (identified by pre-order ordinal in the function)."""
 
     def __init__(self, havoc, invariant, decreases=None, ghost_init=None,
-                 ghost_update=None, ghost_havoc=None, note=""):
+                 ghost_update=None, ghost_havoc=None, note="", fghost_havoc=None):
         self.havoc = havoc                # {var: kind}
         self.invariant = invariant        # env -> [(name, bool)]
         self.decreases = decreases        # env -> int
         self.ghost_init = ghost_init      # env -> {name: value}
         self.ghost_update = ghost_update  # env -> {name: value}  (end of body)
         self.ghost_havoc = ghost_havoc or {}
+        self.fghost_havoc = fghost_havoc or {}   # function-level ghosts havocked at this loop
         self.note = note
 
 
@@ -62,7 +63,7 @@ class Contract:
                  raises=(), ensures=None, loops=None, grid=None, modules=(),
                  concrete_cases=(), call=None, known=(), inline=(), label=None,
                  notes="", allow_exceptions=(), replay_args=None, setup=None,
-                 sample_inputs=None):
+                 sample_inputs=None, on_yield=None, fghost_init=None, always_instrument=False):
         self.target = target
         self.prop = prop
         self.params = params or {}
@@ -83,6 +84,9 @@ class Contract:
         self.replay_args = replay_args
         self.setup = setup
         self.sample_inputs = sample_inputs
+        self.on_yield = on_yield
+        self.fghost_init = fghost_init
+        self.always_instrument = always_instrument
 
 
 def resolve(target):
@@ -192,6 +196,18 @@ def unjson(v):
     return v
 
 
+def _ceval(fn, env, what):
+    """Evaluate a piece of contract text.  An exception raised *by the contract*
+    (e.g. an invariant naming a variable the code no longer has) means the
+    contract is stale: undecided, never a violation."""
+    try:
+        return fn(env)
+    except (PathEnd, Undecided):
+        raise
+    except Exception as e:
+        raise Undecided("contract stale: %s raised %r" % (what, e))
+
+
 # ------------------------------------------------------------------ loop cutting (AST)
 
 class _VcRuntime:
@@ -205,6 +221,17 @@ class _VcRuntime:
     def reset(self, entry_env):
         self.state = {}
         self.entry_env = entry_env
+        self.fg = Env()          # function-level ghost state (e.g. what was yielded)
+        if self.contract.fghost_init:
+            self.fg.update(self.contract.fghost_init(entry_env))
+        entry_env["fg"] = self.fg
+
+    def yield_(self, value):
+        """`yield X` of a producer-style generator: ghost update + obligations"""
+        if self.contract.on_yield is None:
+            raise Undecided("function yields but the contract has no on_yield")
+        self.contract.on_yield(self.fg, value, ctx(), self.entry_env)
+        return None
 
     def _env(self, k, loc):
         env = Env()
@@ -216,6 +243,7 @@ class _VcRuntime:
         env["ghost"] = st["ghost"]
         env["old"] = self.entry_env
         env["pre"] = st.get("pre", Env())
+        env["fg"] = self.fg
         return env
 
     def _normalise(self, loc, spec):
@@ -241,7 +269,7 @@ class _VcRuntime:
             env = self._env(k, loc)
             st["ghost"].update(spec.ghost_init(env))
         env = self._env(k, loc)
-        for name, g in spec.invariant(env):
+        for name, g in _ceval(spec.invariant, env, "loop %d invariant" % k):
             c.oblige("loop%d-inv-init:%s" % (k, name), g)
         # meta invariants: element bounds of havocked sequences must hold now
         for name, kind in spec.havoc.items():
@@ -255,18 +283,32 @@ class _VcRuntime:
                 c.oblige("loop%d-inv-init:elem-bounds(%s)" % (k, name), ok)
         return None
 
-    def havoc(self, k, name, cur):
+    def havoc(self, k, name, loc):
         spec = self.contract.loops[k]
         c = ctx()
+        if name not in loc:
+            raise Undecided("contract stale: loop %d havocs %r, which the code does not bind before the loop" % (k, name))
+        cur = loc[name]
         kind = spec.havoc[name]
         if callable(kind):
             kind = kind(self.entry_env)
+        if isinstance(kind, tuple) and kind[0] == "object":
+            # ('object', fn): fn(cur, ctx, name) havocs the object's state in place
+            return kind[1](cur, c, "%s@L%d" % (name, k))
         if kind == "rangeiter":
             if not isinstance(cur, PB._SymRangeIter):
                 raise Undecided("havoc 'rangeiter' of a non-range iterator")
             r = cur.r
+            if r.step > 1:
+                # cur == start + step*j, j >= 0, and the previous element (if any) was < stop
+                j = z3.Int(c.fresh_name("%s.j@L%d" % (name, k)))
+                lo, hi = as_z3_int(r.start), as_z3_int(r.stop)
+                cur_e = lo + r.step * j
+                c.assume(z3.And(j >= 0, z3.Or(j == 0, cur_e - r.step < hi)))
+                cur.cur = SymInt(cur_e)
+                return cur
             if r.step != 1:
-                raise Undecided("havoc of range iterator with step != 1")
+                raise Undecided("havoc of range iterator with step < 1")
             p = SymInt(z3.Int(c.fresh_name("%s.cur@L%d" % (name, k))))
             lo, hi = as_z3_int(r.start), as_z3_int(r.stop)
             c.assume(z3.And(p.e >= lo, z3.Or(p.e <= hi, p.e == lo)))
@@ -295,8 +337,10 @@ class _VcRuntime:
         st = self.state[k]
         for gname, kind in spec.ghost_havoc.items():
             st["ghost"][gname] = make_value(kind, c.fresh_name("%s@G%d" % (gname, k)), c)
+        for gname, kind in spec.fghost_havoc.items():
+            self.fg[gname] = make_value(kind, c.fresh_name("%s@F%d" % (gname, k)), c)
         env = self._env(k, loc)
-        for name, g in spec.invariant(env):
+        for name, g in _ceval(spec.invariant, env, "loop %d invariant" % k):
             c.assume(g)
         st["in_iteration"] = True
         if spec.decreases:
@@ -315,7 +359,7 @@ class _VcRuntime:
             env = self._env(k, loc)
             st["ghost"].update(spec.ghost_update(env))
         env = self._env(k, loc)
-        for name, g in spec.invariant(env):
+        for name, g in _ceval(spec.invariant, env, "loop %d invariant" % k):
             c.oblige("loop%d-inv-preserve:%s" % (k, name), g)
         for name, kind in spec.havoc.items():
             if callable(kind):
@@ -386,7 +430,7 @@ class _LoopCutter(ast.NodeTransformer):
             if name.startswith("@"):
                 continue
             stmts.append(ast.Assign(targets=[ast.Name(id=name, ctx=ast.Store())],
-                                    value=self._call("havoc", k, ast.Constant(name), ast.Name(id=name, ctx=ast.Load()))))
+                                    value=self._call("havoc", k, ast.Constant(name), self._locals())))
         stmts.append(ast.Expr(self._call("assume", k, self._locals())))
         return stmts
 
@@ -452,6 +496,12 @@ class _LoopCutter(ast.NodeTransformer):
             return ast.Expr(self._call("iter_end", self.cur[-1], self._locals()))
         return node
 
+    def visit_Yield(self, node):
+        self.has_yield = True
+        self.generic_visit(node)
+        return ast.Call(func=ast.Attribute(value=ast.Name(id="__vc", ctx=ast.Load()), attr="yield_", ctx=ast.Load()),
+                        args=[node.value if node.value is not None else ast.Constant(None)], keywords=[])
+
 
 def instrument(fn, contract):
     """Re-compile fn from its own source with the contract's loops cut."""
@@ -482,9 +532,24 @@ def instrument(fn, contract):
 def discharge(pc, goal, timeout_ms, axioms=()):
     """(status, model, seconds, backend): status in proved/refuted/unknown."""
     t0 = time.time()
+    exprs = list(pc) + [goal]
+    # strategy 0 (proof only): arithmetic abstraction.  Every Length(t) becomes an
+    # opaque non-negative integer and hypotheses that mention other sequence
+    # operations are dropped (weaker hypotheses: unsat here implies unsat there).
+    ab = _arith_abstraction(pc, goal)
+    if ab is not None:
+        s0 = z3.Solver()
+        s0.set("timeout", min(timeout_ms, 3000))
+        if any(S._uses_pow2(e) for e in ab):
+            for a in S.POW2_AXIOMS:
+                s0.add(a)
+        for e in ab[:-1]:
+            s0.add(e)
+        s0.add(z3.Not(ab[-1]))
+        if s0.check() == z3.unsat:
+            return "proved", None, time.time() - t0, "z3"
     s = z3.Solver()
     s.set("timeout", timeout_ms)
-    exprs = list(pc) + [goal]
     if any(S._uses_pow2(e) for e in exprs):
         for a in S.POW2_AXIOMS:
             s.add(a)
@@ -506,12 +571,85 @@ def discharge(pc, goal, timeout_ms, axioms=()):
         m = _pow2_bounded_model(list(pc) + [z3.Not(goal)], axioms, min(timeout_ms, 5000))
         if m is not None:
             return "refuted", m, time.time() - t0, "z3"
-    # second back end: cvc5 through SMT-LIB2
-    st = _cvc5_check(s, timeout_ms)
+    # second back end: cvc5 through SMT-LIB2 (pure integer problems only: z3's
+    # SMT-LIB printer is not reliable for recursive spec functions / sequences)
+    st = "skipped" if _has_recfun_or_seq(exprs) else _cvc5_check(s, timeout_ms)
     dt = time.time() - t0
     if st == "unsat":
         return "proved", None, dt, "cvc5"
     return "unknown", None, dt, "z3+cvc5:" + str(s.reason_unknown())
+
+
+def _arith_abstraction(pc, goal):
+    """[hyps..., goal] over integers only, or None when nothing is gained."""
+    cache = {}
+    lens = {}
+    any_seq = [False]
+
+    def conv(t):
+        """converted term, or None if t depends on a sequence other than via Length"""
+        k = t.get_id()
+        if k in cache:
+            return cache[k]
+        r = None
+        if z3.is_quantifier(t):
+            r = None
+        elif z3.is_app(t):
+            dk = t.decl().kind()
+            if dk == z3.Z3_OP_SEQ_LENGTH:
+                any_seq[0] = True
+                key = t.arg(0).get_id()
+                if key not in lens:
+                    lens[key] = z3.Int("len!%d" % key)
+                r = lens[key]
+            elif t.sort().kind() == z3.Z3_SEQ_SORT or t.decl().name().startswith("spec_"):
+                any_seq[0] = True
+                r = None
+            elif t.num_args() == 0:
+                r = t
+            else:
+                ch = [conv(c) for c in t.children()]
+                if any(c is None for c in ch):
+                    r = None
+                else:
+                    try:
+                        r = t.decl()(*ch)
+                    except Exception:
+                        r = None
+        else:
+            r = t
+        cache[k] = r
+        return r
+    g = conv(goal)
+    if g is None:
+        return None
+    hyps = []
+    for p in pc:
+        for cj in (p.children() if z3.is_and(p) else [p]):
+            c = conv(cj)
+            if c is not None:
+                hyps.append(c)
+    if not any_seq[0]:
+        return None
+    for v in lens.values():
+        hyps.append(v >= 0)
+    return hyps + [g]
+
+
+def _has_recfun_or_seq(exprs):
+    seen, todo = set(), list(exprs)
+    while todo:
+        t = todo.pop()
+        if t.get_id() in seen:
+            continue
+        seen.add(t.get_id())
+        if z3.is_app(t):
+            if t.decl().name().startswith("spec_") or t.sort().kind() == z3.Z3_SEQ_SORT:
+                return True
+            todo.extend(t.children())
+        elif z3.is_quantifier(t):
+            todo.append(t.body())
+    return False
 
 
 def _pow2_args(exprs):
@@ -617,7 +755,7 @@ def run_contract(contract, gridpoint, timeout_ms=10000, max_paths=4000, unwind=6
     rt = None
     call_fn = fn
     try:
-        if contract.loops:
+        if contract.loops or contract.on_yield or contract.always_instrument:
             newf, rt = instrument(raw, contract)
             call_fn = newf
             # route recursive / internal calls to the instrumented version as well
@@ -650,7 +788,9 @@ def run_contract(contract, gridpoint, timeout_ms=10000, max_paths=4000, unwind=6
             except PathEnd:
                 pass
             except Undecided as e:
-                res["undecided"].append("unsupported: %s" % e)
+                tb = traceback.extract_tb(e.__traceback__)
+                where = " <- ".join("%s:%d" % (f.name, f.lineno) for f in tb[-4:])
+                res["undecided"].append("unsupported: %s (%s)" % (e, where))
             except RecursionError:
                 res["undecided"].append("recursion limit")
             finally:
@@ -777,13 +917,15 @@ def _run_path(contract, gridpoint, call_fn, rt, c, res):
     except Exception as e:
         exc = e
     env["result"] = result
+    if rt is not None:
+        env["fg"] = rt.fg
     # 4. exceptional postconditions (iff semantics)
     if exc is not None:
         matched = False
         for (etype, when) in contract.raises:
             if isinstance(exc, etype):
                 matched = True
-                c.oblige("raises-only-when:%s" % etype.__name__, when(env))
+                c.oblige("raises-only-when:%s" % etype.__name__, _ceval(when, env, "raises clause"))
         if not matched:
             if isinstance(exc, contract.allow_exceptions):
                 return
@@ -794,10 +936,10 @@ def _run_path(contract, gridpoint, call_fn, rt, c, res):
         return
     for (etype, when) in contract.raises:
         from .spec import not_
-        c.oblige("raises-when:%s" % etype.__name__, not_(when(env)))
+        c.oblige("raises-when:%s" % etype.__name__, not_(_ceval(when, env, "raises clause")))
     # 5. normal postconditions
     if contract.ensures:
-        posts = contract.ensures(env)
+        posts = _ceval(contract.ensures, env, "ensures")
         for name, g in posts:
             c.oblige("post:%s" % name, g)
         # canary / witness: pc /\ post satisfiable on this path?
